@@ -330,6 +330,7 @@ def run_u_to_euler(u, desc, mod, modname, checks, tier):
             # (b) unit `composition`: such deviations move no matrix entry by more than 1e-6
             eps = lift(EPS_ANGLE)
             from vengine.symnp import _cos1, _sin1
+            goals = []
             for k, (cn, sn) in enumerate((('c1', 's1'), ('cP', 'sP'), ('c2', 's2'))):
                 a = e[k]
                 cc, ss = (a.cs() if isinstance(a, Angle) else (_cos1(a), _sin1(a)))
@@ -337,9 +338,23 @@ def run_u_to_euler(u, desc, mod, modname, checks, tier):
                     d = lift(val) - ref
                     if d.iszero():
                         continue
-                    u.prove('C03/%s.u_to_euler/rebuild[zeroing-path]' % modname, pre,
-                            z3.And(zc.cmp0(d - eps, '<='), zc.cmp0(d + eps, '>=')), replay=rp,
-                            detail='%s of returned angle %d within 1e-7 of the generating angle on path %s' % (nm, k, tag), timeout=qt, cvc5_timeout=qt)
+                    goals.append((z3.And(zc.cmp0(d - eps, '<='), zc.cmp0(d + eps, '>=')), '%s of returned angle %d within 1e-7 of the generating angle on path %s' % (nm, k, tag)))
+            # (a) is sufficient, not necessary: if it cannot be established the 1e-6 bound itself is asked entry by entry on this path
+            sufficient = True
+            for g_, det_ in goals:
+                st_, _, _ = smt.solve(pre + [z3.Not(g_)], timeout_s=qt, cvc5_timeout_s=qt, want_model=False)
+                if st_ != 'unsat':
+                    sufficient = False
+                    break
+            if sufficient:
+                for g_, det_ in goals:
+                    u.prove('C03/%s.u_to_euler/rebuild[zeroing-path]' % modname, pre, g_, replay=rp, detail=det_, timeout=qt, cvc5_timeout=qt)
+            else:
+                for k, r in nz:
+                    for sg, op in ((-1, '<='), (1, '>=')):
+                        u.prove('C03/%s.u_to_euler/rebuild[zeroing-path]/direct' % modname, pre, zc.cmp0(r + sg * tol6, op), replay=rp,
+                                detail='entry %d,%d of euler_to_u(u_to_euler(U)) - U %s %s1e-6 on path %s' % (k // 3, k % 3, op, '-' if sg > 0 else '', tag),
+                                timeout=qt, cvc5_timeout=qt)
         else:
             # gimbal-lock branches: (a) phi2' == 0, PHI' == PHI and phi1' reproduces cos/sin(phi1 +- phi2) within 1e-7 on this path;
             # (b') unit `composition-lock*`
